@@ -69,6 +69,8 @@ def gen_scenario(rng, frontend):
         ints.append({'id': i, 'name': nm, 'cbp': rng.random() < 0.4, 'L': L, 'te': te, 'lat': lat, 'aw': aw,
                      'verdict': rng.choice(V2_VERDICTS if frontend == 'v2' else V1_VERDICTS), 'digest': dig,
                      'placeholder': dig is None and rng.random() < 0.06})
+        if dig is None and not ints[-1]['placeholder'] and rng.random() < 0.06:
+            ints[-1]['signed_np'] = True      # a signer but no ApplicationParameters: the digest component is appended all the same
     # candidate times: every deadline -1/0/+1, every express time, claim+latency points
     grid = set()
     for it in ints:
@@ -89,7 +91,7 @@ def gen_scenario(rng, frontend):
             # the application shuts the face down, or the face goes down by itself (connection lost): Face.run() returns
             events.append({'t': t, 'kind': 'shutdown', 'by': rng.choice(['app', 'face'])})
     for it in ints:
-        if it['placeholder'] and rng.random() < 0.8:
+        if (it['placeholder'] or it.get('signed_np')) and rng.random() < 0.8:
             events.append({'t': it['te'] + rng.choice([1, 5, it['L'] - 1]), 'kind': 'dataf', 'i': it['id']})
     events.sort(key=lambda e: e['t'])       # stable: express events of equal time keep their order
     # nothing after a shutdown; a Nack only for an Interest already expressed
@@ -114,7 +116,7 @@ def int_fullname(sc, it, digests):
 
 def matches(sc, it, d, data_digest):
     """Does Data d match Interest it?"""
-    if it.get('placeholder'):
+    if it.get('placeholder') or it.get('signed_np'):
         return False
     dn = NAMES[sc['datas'][d]['name']]
     iname = NAMES[it['name']]
@@ -131,14 +133,16 @@ def dataf_matches(sc, it, j):
     """Data answering placeholder Interest j is named  first-component / digest / rest."""
     if it['id'] == j:
         return True
-    if it.get('placeholder') or it['digest'] is not None:
+    if it.get('placeholder') or it.get('signed_np') or it['digest'] is not None:
         return False
     src = sc['ints'][j]
+    if src.get('signed_np'):
+        return it['cbp'] and is_prefix(NAMES[it['name']], NAMES[src['name']])     # the Data is named  name / digest
     return it['cbp'] and NAMES[it['name']] == NAMES[src['name']][:1]
 
 
 def same_full_name(a, b):
-    if a.get('placeholder') or b.get('placeholder'):
+    if a.get('placeholder') or b.get('placeholder') or a.get('signed_np') or b.get('signed_np'):
         return a['id'] == b['id']
     return a['name'] == b['name'] and a['digest'] == b['digest']
 
@@ -378,7 +382,14 @@ def execute(sc):
             elif it.get('digest') is not None:
                 nm = nm + [rc.comp(1, R.data_digest[it['digest'][1]])]
             n0 = len(face.sent)
-            if sc.get('shared_param') and app_param is None:
+            if it.get('signed_np'):
+                if fe == 'v2':
+                    coro = the_app.express(nm, make_validator(it), signer=DigestSha256Signer(for_interest=True),
+                                           lifetime=lifetime or it['L'], can_be_prefix=it['cbp'], nonce=1000 + it['id'])
+                else:
+                    coro = the_app.express_interest(nm, validator=make_validator(it), signer=DigestSha256Signer(for_interest=True),
+                                                    lifetime=lifetime or it['L'], can_be_prefix=it['cbp'], nonce=1000 + it['id'])
+            elif sc.get('shared_param') and app_param is None:
                 # legal API form: one InterestParam object reused (and modified) by the caller for every Interest
                 shared.can_be_prefix = it['cbp']
                 shared.lifetime = lifetime or it['L']
@@ -601,6 +612,8 @@ def judge(ctx, sc, R, S):
     for it in sc['ints']:
         if it.get('aw'):
             ctx.event('awaited-later-than-expressed')
+        if it.get('signed_np'):
+            ctx.event('signed-interest-without-parameters')
     ctx.event('validator-calls', sum(1 for x in R.validator_log if x[1] == 'call'))
 
 
@@ -701,7 +714,7 @@ def run(ctx):
     for lab in ('face-lost', 'late-await-data', 'late-await-nothing', 'late-await-nack', 'cancel-then-nack', 'cancel-then-data', 'reexpress-while-validating', 'tie-data-at-deadline', 'one-data-many-interests',
                 'shutdown-mixed', 'nack-for-prefix-of-pending', 'verdicts-differ', 'implicit-digest'):
         ctx.need_class('template:' + lab)
-    for k in ('outcome-data', 'outcome-timeout', 'outcome-nack', 'outcome-cancel', 'outcome-valfail', 'validator-calls', 'awaited-later-than-expressed', 'other-application-unaffected'):
+    for k in ('outcome-data', 'outcome-timeout', 'outcome-nack', 'outcome-cancel', 'outcome-valfail', 'validator-calls', 'awaited-later-than-expressed', 'other-application-unaffected', 'signed-interest-without-parameters'):
         ctx.need_event(k)
     ctx.assumptions = ['exact ties (packet / validator completion / deadline in the same millisecond) accept either order',
                        'Data arrived in time but validator slower than the deadline: Data/ValidationFailure at validator completion or timeout at the deadline are both accepted here (C05 decides that clause)',
